@@ -3,7 +3,8 @@ from . import core, conn, hist
 
 RULE = ("every per-attempt outcome script over {final (genuine reply), node busy 0xC0, timeout 0xC3, garbage, truncated body, lost reply"
         " [, bad signature in a session]} up to the stated depth, exhaustively (scripts are cut at their deciding attempt), each on a "
-        "randomly drawn command, session-less and inside sessions of all 9 suites; predicate (reference model of the documented "
+        "randomly drawn command, session-less and inside sessions of all 9 suites, plus every completion code 0..255 as the answer "
+        "(alone and after a temporary code); predicate (reference model of the documented "
         "SendCommand contract): number of transmissions, every transmission is accepted by the BMC and decodes to the same command "
         "with the same request data, the result is the first final outcome's; tie: the Coq retry-loop model reproduces every "
         "datagram byte for byte and the result.  distinct by (command, script, suite)")
@@ -70,6 +71,13 @@ def run(ch, build, hooks=(hook,), prop="C10"):
             s = [ch.rng.choice([a for a in alpha if not hist.is_final(a) and not (session and a == "lost")]) for _ in range(k)]
             s.append(ch.rng.choice(alpha + ["cc:193", "cc:213", "cc:255"]))
             scripts.append(s)
+        # every completion code as the answer, alone and after a temporary one: only C0h and C3h are temporary (IPMI
+        # v2.0 table 5-2; the library's documented contract), every other code is a final answer
+        codes = range(256) if (not ch.quick() or not session) else ch.rng.sample(range(256), 40)
+        for n in codes:
+            scripts.append(["cc:%d" % n] if n not in (0xc0, 0xc3) else ["cc:%d" % n, "ok"])
+            if n % 4 == 1 or not ch.quick():
+                scripts.append(["busy", "cc:%d" % n] if n not in (0xc0, 0xc3) else ["busy", "cc:%d" % n, "ok"])
         scns = hist.build_scenarios(ch, session, scripts)
         outs = conn.run_scenarios(scns)
         hist.replay(ch, scns, outs, hooks, prop.lower())
